@@ -126,4 +126,8 @@ m = {
     "notes": "See DESIGN.md. known_findings.json lists the genuine defects found and fixed (fix: commits in /repo).",
 }
 json.dump(m, open(os.path.join(ROOT, "MANIFEST.json"), "w"), indent=1)
+# structural fallback positions of the text anchors, recorded on the current (pristine) tree
+import subprocess
+subprocess.run(["python3", os.path.join(ROOT, "tools", "vgen.py"), "--record-anchors", "/repo"] +
+               [os.path.join(ROOT, u["template"]) for u in plan["verus_units"].values()], check=True, stdout=subprocess.DEVNULL)
 print("claimed:", [c["property_id"] for c in checks])
